@@ -259,3 +259,80 @@ Definition advice_table_ok : bool :=
 Example C02_advice_table : advice_table_ok = true.
 Proof. vm_compute. reflexivity. Qed.
 Print Assumptions C02_advice_table.
+
+(* ---- several calls on ONE client / SecurityContext at the same time (Model/Interleave.v): steps Write / Run / Read of
+   the calls interleave arbitrarily over one shared file map.  The harness checks on every run that the scratch files
+   of calls that are alive together are pairwise distinct (the hypothesis), and that every tool run saw the text written
+   for its own call (the conclusion) under forced interleavings of the real code. *)
+From PV Require Import Model.Interleave Proofs.Interleave_lemmas.
+Open Scope N_scope.
+
+(* ANY number of callers, ANY interleaving: es is an arbitrary step sequence in which the steps of caller c are the
+   steps of its call (uses us) and no other caller writes to a file of that call.  Then every tool run of c sees the text
+   of its own call and the library reads the tool's answer to that text — whatever the other callers do. *)
+Theorem C02_concurrent_own_document :
+  forall tool f es c us,
+    only c es = call_events c us ->
+    (forall e, In e es -> ev_caller e <> c -> forall p, In p (writes e) -> ~ In p (paths us)) ->
+    proj c (exec tool f es) = alone tool c us.
+Proof. exact any_calls. Qed.
+Print Assumptions C02_concurrent_own_document.
+
+(* two calls with separate files: in EVERY interleaving of their step sequences each call gets the observations —
+   hence the verdict — of its own document (induction over the merge) *)
+Theorem C02_concurrent_two_calls :
+  forall tool f a b ua ub es,
+    a <> b -> disjoint (paths ua) (paths ub) -> merge (call_events a ua) (call_events b ub) es ->
+    proj a (exec tool f es) = alone tool a ua /\ proj b (exec tool f es) = alone tool b ub.
+Proof. exact two_calls. Qed.
+Print Assumptions C02_concurrent_two_calls.
+
+Theorem C02_concurrent_two_calls_verdict :
+  forall ok tool f a b ua ub es,
+    a <> b -> disjoint (paths ua) (paths ub) -> merge (call_events a ua) (call_events b ub) es ->
+    call_verdict ok (proj a (exec tool f es)) = call_verdict ok (alone tool a ua) /\
+    call_verdict ok (proj b (exec tool f es)) = call_verdict ok (alone tool b ub).
+Proof.
+  intros ok tool f a b ua ub es Hab Hd Hm. destruct (two_calls tool f a b ua ub es Hab Hd Hm) as [-> ->]. now split.
+Qed.
+Print Assumptions C02_concurrent_two_calls_verdict.
+
+(* three calls: the third interleaved with any interleaving of the first two *)
+Theorem C02_concurrent_three_calls :
+  forall tool f a b c ua ub uc es1 es,
+    a <> b -> a <> c -> b <> c ->
+    disjoint (paths ua) (paths ub) -> disjoint (paths ua) (paths uc) -> disjoint (paths ub) (paths uc) ->
+    merge (call_events a ua) (call_events b ub) es1 -> merge es1 (call_events c uc) es ->
+    proj a (exec tool f es) = alone tool a ua /\ proj b (exec tool f es) = alone tool b ub /\
+    proj c (exec tool f es) = alone tool c uc.
+Proof. exact three_calls. Qed.
+Print Assumptions C02_concurrent_three_calls.
+
+(* with ONE shared input path the statement is false: an interleaving exists in which the call with the refused text
+   (verdict alone: false) is accepted, because its tool run saw the other call's text *)
+Theorem C02_concurrent_shared_path_refuted :
+  merge (call_events 0 shared_a) (call_events 1 shared_b) shared_es /\
+  call_verdict ok_only_2 (alone tool10 0 shared_a) = false /\
+  call_verdict ok_only_2 (proj 0 (exec tool10 [] shared_es)) = true /\
+  proj 0 (exec tool10 [] shared_es) = map (fun o => (0, snd o)) (alone tool10 1 shared_b).
+Proof. exact shared_path_refuted. Qed.
+Print Assumptions C02_concurrent_shared_path_refuted.
+
+(* and with one shared OUTPUT path: the inputs are separate, yet call 0 reads the tool's answer to call 1 *)
+Theorem C02_concurrent_shared_output_refuted :
+  merge (call_events 0 [(1, 5, 8, 1)]) (call_events 1 [(1, 6, 8, 2)]) shared_out_es /\
+  proj 0 (exec tool10 [] shared_out_es) = [(0, Some 1); (0, Some 112)] /\
+  alone tool10 0 [(1, 5, 8, 1)] = [(0, Some 1); (0, Some 111)].
+Proof. exact shared_output_refuted. Qed.
+Print Assumptions C02_concurrent_shared_output_refuted.
+
+(* non-vacuity: a real interleaving of two calls with two tool uses each, separate files *)
+Example C02_concurrent_example :
+  let ua := [(0, 1, 2, 10); (1, 3, 4, 11)] in let ub := [(0, 5, 6, 20); (1, 7, 8, 21)] in
+  let es := [Write 0 1 10; Write 1 5 20; Run 0 0 1 2; Run 1 0 5 6; Read 0 2; Write 0 3 11; Read 1 6; Write 1 7 21; Run 1 1 7 8; Run 0 1 3 4; Read 1 8; Read 0 4] in
+  merge (call_events 0 ua) (call_events 1 ub) es /\ proj 0 (exec tool10 [] es) = alone tool10 0 ua /\ proj 1 (exec tool10 [] es) = alone tool10 1 ub.
+Proof.
+  cbv zeta. split; [|vm_compute; auto].
+  cbn. apply merge_l, merge_r, merge_l, merge_r, merge_l, merge_l, merge_r, merge_r, merge_r, merge_l, merge_r, merge_l, merge_nil.
+Qed.
+Print Assumptions C02_concurrent_example.
